@@ -18,7 +18,7 @@ func init() {
 			"(2) no decoder narrows an integer to a smaller type without a range check on the path (e.g. byte(t) for a parsed int: \"256\" would decode as 0); (3) codec pairs: each encoder/decoder pair uses matching standard-library primitives with matching constants — FormatInt(.,10)<->Atoi/ParseInt(.,10,64), FormatUint(.,10)<->ParseUint(.,10,64), bases 16 and 32 for the hex helpers, Unix()<->time.Unix(t,0), UnixNano()<->time.Unix(0,t), Duration.String<->ParseDuration, base64.RawStdEncoding both ways, Itoa+\"/\"<->Split(\"/\")+Atoi — and MarshalJSON wraps the codec output in exactly one quote at each end; (4) decode errors of the primitive are returned, never swallowed. " +
 			"NOT decided: exactness of strconv/time themselves; Atoi into int64 on 32-bit platforms (observation in the thorough tier).",
 		Assumptions: []string{"strconv, time, encoding/base64 round-trip their own formats"},
-		Floors:      map[string]int{"C20.quote-guard": 7, "C20.narrowing": 1, "C20.codec-pair": 12, "C20.quote-wrap": 6, "C20.error-returned": 7, "C20.dest-assigned": 8, "C20.output-owned": 8},
+		Floors:      map[string]int{"C20.quote-guard": 7, "C20.narrowing": 1, "C20.codec-pair": 12, "C20.quote-wrap": 6, "C20.error-returned": 7, "C20.dest-assigned": 8, "C20.output-owned": 8, "C20.value-source": 13},
 		Run:         runC20,
 	})
 }
@@ -117,6 +117,7 @@ func runC20(c *Ctx) {
 		es, etraces := callsOf(enc)
 		ds, _ := callsOf(dec)
 		c.checkOutputOwned(enc, p.name, etraces)
+		c.checkValueSource(dec, p.name, cfg)
 		var missing []string
 		for _, w := range p.encCalls {
 			if !has(es, w) {
@@ -463,6 +464,115 @@ func (c *Ctx) checkOutputOwned(enc *ssa.Function, name string, traces []*Trace) 
 	}
 	if ok && n > 0 {
 		c.holds("C20.output-owned", cons, enc.Pos(), fmt.Sprintf("%d paths returning a byte slice", n))
+	}
+}
+
+// checkValueSource: on every success path the decoded value comes out of the library parser the pair is built on
+// (strconv / time.ParseDuration / base64 / strings.Split, possibly through time.Unix or a conversion), or is a
+// constant (the empty cases). A hand-rolled digit loop beside the parser silently accepts what the parser
+// rejects (overflow wraps, other alphabets) — the "never silently a different number" clause.
+func (c *Ctx) checkValueSource(dec *ssa.Function, name string, cfg TraceConfig) {
+	cons := name + " decoder"
+	traces, complete := c.Trace(dec, cfg)
+	if !complete {
+		c.undecided("C20.value-source", cons, dec.Pos(), "path budget exceeded")
+		return
+	}
+	primary := func(n string) bool {
+		return strings.HasPrefix(n, "strconv.") || n == "time.ParseDuration" || strings.HasPrefix(n, "(*encoding/base64.Encoding).Decode") || n == "strings.Split"
+	}
+	through := func(n string) bool {
+		return n == "time.Unix" || n == "time.UnixMilli" || strings.HasPrefix(n, "(time.Time).")
+	}
+	isMethod := dec.Signature.Recv() != nil
+	ok, n := true, 0
+	if strings.HasSuffix(dec.Name(), "Scan") && !strings.Contains(name, "Base64") {
+		return // database values of the time types arrive typed, there is no text to parse
+	}
+	for _, t := range traces {
+		if t.End != EndReturn {
+			continue
+		}
+		if er := t.Ret[len(t.Ret)-1]; !er.isNilConst() {
+			// the parser's own (value, error) pair handed back unchanged is a success path too
+			direct := false
+			for _, e := range t.Events {
+				if e.Kind == EvCall && e.Res != nil && e.Res.Kind == KTuple && len(e.Res.Args) == 2 && e.Res.Args[1].Key() == er.Key() && primary(e.callName()) {
+					direct = true
+				}
+			}
+			if !direct {
+				continue
+			}
+		}
+		byRes := map[string]*Event{}
+		for _, e := range t.Events {
+			if e.Kind == EvCall && e.Res != nil {
+				byRes[e.Res.Key()] = e
+				if e.Res.Kind == KTuple {
+					for _, a := range e.Res.Args {
+						byRes[a.Key()] = e
+					}
+				}
+			}
+		}
+		var derives func(s *Sym, depth int) bool
+		derives = func(s *Sym, depth int) bool {
+			found := false
+			s.walk(func(x *Sym) {
+				if found || depth > 4 {
+					return
+				}
+				if e, is := byRes[x.Key()]; is {
+					switch nm := e.callName(); {
+					case primary(nm):
+						found = true
+					case through(nm):
+						for _, a := range e.Args {
+							if derives(a, depth+1) {
+								found = true
+							}
+						}
+					}
+				}
+			})
+			return found
+		}
+		var vals []*Sym
+		if isMethod {
+			recv := t0Key(dec)
+			var last *Event
+			for _, e := range t.Events {
+				if e.Kind == EvStore && e.Addr.Key() == recv {
+					last = e
+				}
+			}
+			if last != nil {
+				vals = append(vals, last.Val)
+			}
+			// element stores into a destination slice made on this path (JsByte)
+			for _, e := range t.Events {
+				if e.Kind == EvStore && e.Addr.Kind == KIndexAddr && last != nil && e.Addr.Args[0].root().Key() == last.Val.root().Key() && last.Val.root().Kind == KAlloc {
+					vals = append(vals, e.Val)
+				}
+			}
+		} else if len(t.Ret) > 1 {
+			vals = append(vals, t.Ret[0])
+		}
+		for _, v := range vals {
+			n++
+			sv := v.strip()
+			if sv.isConst() || sv.isNilConst() || sv.Kind == KAlloc || derives(v, 0) {
+				continue
+			}
+			if ok {
+				ok = false
+				c.violated("C20.value-source", cons, dec.Pos(), "on a success path the decoded value ("+c.short(v.Key())+") does not come out of the library parser this codec is built on: input the parser would reject (a number beyond the type's range, another spelling) is accepted as some other value with a nil error", c.witness(t, len(t.Events)-1)...)
+			}
+		}
+	}
+	if ok && n > 0 {
+		c.holds("C20.value-source", cons, dec.Pos(), fmt.Sprintf("%d decoded values come from the library parser or are constants", n))
 	}
 }
 
